@@ -3,6 +3,7 @@
 package verifsim
 
 import (
+	"fmt"
 	"strconv"
 
 	"github.com/istio-ecosystem/authservice/internal/simsync"
@@ -37,6 +38,7 @@ func hookYield(pos int) {
 
 // installHooks binds the simsync hooks to sim for the duration of a run.
 func installHooks(s *Sim) {
+	takeBgPanics()
 	setHookSim(s)
 	simsync.Deadlocks = 0
 	simsync.SetHooks(hookYield, hookGo)
@@ -48,15 +50,33 @@ func setHookSim(s *Sim) { hookSim = s }
 //go:norace
 func getHookSim() *Sim { return hookSim }
 
+// bgPanics collects panics of goroutines started by instrumented code (a simulator mutex that is never
+// acquired panics after its step budget; in the real service that goroutine would hang for ever).
+var bgPanics []string
+
+//go:norace
+func noteBgPanic(s string) { bgPanics = append(bgPanics, s) }
+
+//go:norace
+func takeBgPanics() []string { p := bgPanics; bgPanics = nil; return p }
+
 func hookGo(f func()) {
+	g := func() {
+		defer func() {
+			if r := recover(); r != nil {
+				noteBgPanic(fmt.Sprint(r))
+			}
+		}()
+		f()
+	}
 	s := getHookSim()
 	if s == nil || !s.isOn() {
-		go f()
+		go g()
 		return
 	}
 	t := s.NewTask(s.nextBg(), "bg")
 	parent := s.Cur()
-	s.Go(t, f)
+	s.Go(t, g)
 	s.SetCur(parent)
 }
 
